@@ -14,7 +14,8 @@ Limits == IF IOEnv.LIMITS = "012" THEN { 0, 1, 2 } ELSE { 0, 1 }
 Endpoints == { "e1", "e2" }
 Tokens == { << >>, << 7, 9 >> }
 Paths == { "a", "b/c" }
-Mids == { 1, 2 }
+\* boundary message ids: the model is symmetric in them, the implementation may not be
+Mids == { 0, 65535 }
 
 Calls ==
      { [op |-> "register", ep |-> e, tok |-> k, p |-> p] : e \in Endpoints, k \in Tokens, p \in Paths }
